@@ -339,4 +339,64 @@ def coopUpdateSingle (alpha gamma q q1 : Rat) (rew norm : List Rat) : Rat :=
 /-- `MDP::QLearning::stepUpdateQ`: `q(s,a) += alpha * (rew + discount * max_a' q(s1,a') - q(s,a))` -/
 def qlUpdate (alpha gamma q qmax r : Rat) : Rat := q + alpha * (r + gamma * qmax - q)
 
+/-! ### flat `MDP::QLearning` and `JointActionLearner` (src/Factored/MDP/Algorithms/JointActionLearner.cpp) -/
+
+abbrev QTab := List (List Rat)      -- S rows × A columns
+
+def QTab.get (q : QTab) (s a : Nat) : Rat := (q.getD s []).getD a 0
+def QTab.put (q : QTab) (s a : Nat) (v : Rat) : QTab := q.set s ((q.getD s []).set a v)
+
+/-- Eigen `row.maxCoeff()` -/
+def rowMax : List Rat → Rat
+  | [] => 0
+  | x :: xs => xs.foldl (fun m v => if m < v then v else m) x
+
+/-- one experience tuple (s, a, s1, reward) of flat QLearning -/
+def qlStep (alpha gamma : Rat) (q : QTab) (e : Nat × Nat × Nat × Rat) : QTab :=
+  q.put e.1 e.2.1 (qlUpdate alpha gamma (q.get e.1 e.2.1) (rowMax (q.getD e.2.2.1 [])) e.2.2.2)
+
+def qlRun (alpha gamma : Rat) (q : QTab) (hist : List (Nat × Nat × Nat × Rat)) : QTab := hist.foldl (qlStep alpha gamma) q
+
+structure JAL where
+  A : List Nat
+  id : Nat
+  total : List Nat                     -- stateCounters_[s]
+  counts : List (List (List Nat))      -- stateActionCounts_[s][slot][value]; slot k = k-th agent other than `id`
+  q : QTab                             -- qLearning_.getQFunction(), columns = toIndex(A, joint action)
+  single : QTab                        -- singleQFun_
+  deriving Repr
+
+/-- the agents other than `id`, in order (the `if (a == id_) ++i` walk) -/
+def JAL.others (j : JAL) : List Nat := (List.range j.A.length).filter (· != j.id)
+
+def jalInit (S : Nat) (A : List Nat) (id : Nat) : JAL :=
+  let others := (List.range A.length).filter (· != id)
+  { A := A, id := id, total := List.replicate S 0,
+    counts := List.replicate S (others.map (fun i => List.replicate (A.getD i 0) 0)),
+    q := List.replicate S (List.replicate (space A) 0),
+    single := List.replicate S (List.replicate (A.getD id 0) 0) }
+
+/-- probability of the other agents' part of a joint action under the empirical per-agent frequencies of state `s`:
+    `p = 1; for each other agent: p *= count; p /= stateCounters_[s]` -/
+def jalProb (j : JAL) (s : Nat) (ja : List Nat) : Rat :=
+  (j.others.zipIdx).foldl (fun p (ik : Nat × Nat) =>
+    p * ((((j.counts.getD s []).getD ik.2 []).getD (ja.getD ik.1 0) 0 : Nat) : Rat) / ((j.total.getD s 0 : Nat) : Rat)) 1
+
+/-- `JointActionLearner::stepUpdateQ(s, aa, s1, rew)` -/
+def jalStep (alpha gamma : Rat) (j : JAL) (e : Nat × List Nat × Nat × Rat) : JAL :=
+  let s := e.1; let aa := e.2.1
+  let total := j.total.set s (j.total.getD s 0 + 1)
+  let rowC := j.counts.getD s []
+  let rowC' := (j.others.zipIdx).foldl (fun rc (ik : Nat × Nat) =>
+      rc.set ik.2 ((rc.getD ik.2 []).set (aa.getD ik.1 0) ((rc.getD ik.2 []).getD (aa.getD ik.1 0) 0 + 1))) rowC
+  let counts := j.counts.set s rowC'
+  let q := qlStep alpha gamma j.q (s, toIndexLoop j.A aa 0 1, e.2.2.1, e.2.2.2)
+  let j1 : JAL := { j with total := total, counts := counts, q := q }
+  let jas := enumAll j.id j.A (space j.A + 1)
+  let row := (List.range (j.A.getD j.id 0)).map (fun ai =>
+      jas.foldl (fun acc ja => acc + q.get s (toIndexLoop j.A (ja.set j.id ai) 0 1) * jalProb j1 s ja) 0)
+  { j1 with single := j.single.set s row }
+
+def jalRun (alpha gamma : Rat) (j : JAL) (hist : List (Nat × List Nat × Nat × Rat)) : JAL := hist.foldl (jalStep alpha gamma) j
+
 end AITB.Factored
